@@ -48,6 +48,9 @@ func c15(c *q.Ctx) {
 		"bcs/consensus/tdpos::(*tdposConsensus).ProcessBeforeMiner": "the producer re-aligns its marker with its ledger tip before mining",
 		"bcs/consensus/xpoa::(*xpoaConsensus).ProcessBeforeMiner":   "the producer re-aligns its marker with its ledger tip before mining",
 	}, "explicit rollback happens only in the producer's pre-mining reconciliation")
+	if f := c.Fn(ctor); f != nil {
+		c.LinearChain(f, "ProposalNode.Sons", 6, "after a restart the tree is the chain root -> generic -> highQC -> tip: the tip block hangs under the highest certified node, which is where the next proposal's parent is looked up")
+	}
 	c.WhoWrites("ProposalNode.Sons", map[string]string{
 		ctor: "constructor",
 		"kernel/consensus/base/driver/chained-bft/main::*": "stand-alone demo main package",
@@ -141,6 +144,11 @@ func c15(c *q.Ctx) {
 	}
 	if io != nil {
 		c.DeadAfter(io, "List.Remove", 0, 2, "the walk over the orphan list steps to the next element before it unlinks the current one: an unlinked element has no successor and the remaining orphans would never be looked at")
+	}
+	if io != nil {
+		el := "phi{list.(*Element).Next(loop)|list.(*List).Front(p0.OrphanList)}"
+		c.Effect(io, q.Eff{Spec: "List.Remove", Arg: 0, Glob: el, Req: []q.Cond{{Canon: "(i:QuorumCertInterface.GetProposalView(p0.Root.In) < i:QuorumCertInterface.GetProposalView(" + el + ".Value.In))", Sense: false}},
+			Why: "an orphan subtree is dropped as expired on ITS OWN head's view (not on the view of the node being inserted): live orphans stay adoptable, stale ones do not pile up", Rule: "K2"})
 	}
 	ao := c.Fn(bft + "(*QCPendingTree).adoptOrphans")
 	if ao != nil {
